@@ -165,6 +165,30 @@ def build_message(request, idx, reply):
     return r
 
 
+def scripted_exchange(env, ident, request, timeout, tcp, raise_on_truncation=True):
+    """one query against the scripted world; shared by every transport"""
+    idx = env.pos
+    dur, reply = env.script[idx] if idx < len(env.script) else env.tail
+    env.pos += 1
+    tms = timeout * 1000
+    tms = int(tms) if F(tms).denominator == 1 else -777777
+    env.trace.append([ident, int(bool(tcp)), env.pending_backoff, tms, labels_of(request.question[0].name), idx])
+    env.pending_backoff = 0
+    if (isinstance(reply, int) and reply == X_TIMEOUT) or dur >= tms:
+        env.clock.ms += max(0, tms)
+        raise dns.exception.Timeout(timeout=timeout)
+    env.clock.ms += dur
+    if isinstance(reply, int):
+        if reply == X_TRUNC and not raise_on_truncation:
+            # what dns.query.udp does without raise_on_truncation: hand back the truncated message
+            r = dns.message.make_response(request)
+            r.flags |= dns.flags.TC
+            r._c16_idx = idx
+            return r
+        raise EXC[reply][0]()
+    return build_message(request, idx, reply)
+
+
 class ScriptedNS(dns.nameserver.Nameserver):
     def __init__(self, ident, maxsize, env):
         super().__init__()
@@ -187,28 +211,67 @@ class ScriptedNS(dns.nameserver.Nameserver):
     def answer_port(self):
         return 5300 + self.ident
 
-    def _do(self, request, timeout, max_size):
-        env = self.env
-        idx = env.pos
-        dur, reply = env.script[idx] if idx < len(env.script) else env.tail
-        env.pos += 1
-        tms = timeout * 1000
-        tms = int(tms) if F(tms).denominator == 1 else -777777
-        env.trace.append([self.ident, int(bool(max_size)), env.pending_backoff, tms, labels_of(request.question[0].name), idx])
-        env.pending_backoff = 0
-        if (isinstance(reply, int) and reply == X_TIMEOUT) or dur >= tms:
-            env.clock.ms += max(0, tms)
-            raise dns.exception.Timeout(timeout=timeout)
-        env.clock.ms += dur
-        if isinstance(reply, int):
-            raise EXC[reply][0]()
-        return build_message(request, idx, reply)
-
     def query(self, request, timeout, source, source_port, max_size, one_rr_per_rrset=False, ignore_trailing=False):
-        return self._do(request, timeout, max_size)
+        return scripted_exchange(self.env, self.ident, request, timeout, max_size)
 
     async def async_query(self, request, timeout, source, source_port, max_size, backend, one_rr_per_rrset=False, ignore_trailing=False):
-        return self._do(request, timeout, max_size)
+        return scripted_exchange(self.env, self.ident, request, timeout, max_size)
+
+
+def do53_address(ident):
+    return f"10.0.{ident // 200}.{ident % 200 + 1}"
+
+
+def doh_url(ident):
+    return f"https://doh{ident}.example:8443/dns-query"
+
+
+class Transports:
+    """scripted replacements for dns.query / dns.asyncquery udp, tcp, https so that the real
+    Do53Nameserver / DoHNameserver classes (and _enrich_nameservers) are on the path"""
+
+    def __init__(self, env, by_where):
+        self.env = env
+        self.by_where = by_where
+        self.anomalies = []
+
+    def note(self, what):
+        if what not in self.anomalies:
+            self.anomalies.append(what)
+
+    def udp(self, q, where, timeout=None, port=53, source=None, source_port=0, ignore_unexpected=False,
+            one_rr_per_rrset=False, ignore_trailing=False, raise_on_truncation=False, sock=None, ignore_errors=False, backend=None):
+        if not raise_on_truncation:
+            self.note(1)  # UDP query that would not report truncation
+        if not ignore_errors:
+            self.note(2)
+        if not ignore_unexpected:
+            self.note(3)
+        if port != 53:
+            self.note(4)
+        return scripted_exchange(self.env, self.by_where.get(where, -1), q, timeout, False, raise_on_truncation)
+
+    def tcp(self, q, where, timeout=None, port=53, source=None, source_port=0, one_rr_per_rrset=False,
+            ignore_trailing=False, sock=None, backend=None):
+        if port != 53:
+            self.note(4)
+        return scripted_exchange(self.env, self.by_where.get(where, -1), q, timeout, True)
+
+    def https(self, q, where, timeout=None, port=443, source=None, source_port=0, one_rr_per_rrset=False,
+              ignore_trailing=False, **kw):
+        if not kw.get("post", True):
+            self.note(5)
+        return scripted_exchange(self.env, self.by_where.get(where, -1), q, timeout, True)
+
+    async def audp(self, *a, **kw):
+        return self.udp(*a, **kw)
+
+    async def atcp(self, *a, **kw):
+        return self.tcp(*a, **kw)
+
+    async def ahttps(self, *a, **kw):
+        kw.pop("client", None)
+        return self.https(*a, **kw)
 
 
 def err_code(e):
@@ -293,7 +356,9 @@ def get_loop():
 
 
 def run_case(case, flavour):
-    """flavour: 'sync' | 'async'"""
+    """flavour: 'sync' | 'async'.  Server kinds: 0 = address string (real Do53Nameserver over scripted
+    dns.query.udp/tcp), 1 = https URL (real DoHNameserver over scripted dns.query.https),
+    2 / 3 = scripted Nameserver objects (3: is_always_max_size)."""
     rcfg, resolutions, script, tail = case
     servers, timeout_ms, lifetime_ms, retry_servfail, cache_kind, usbd, search, domain, ndots = rcfg
     env = Env(script, tail)
@@ -305,23 +370,44 @@ def run_case(case, flavour):
         clock.sleep(s)
 
     fake_time = types.SimpleNamespace(time=clock.time, sleep=sleep)
-    saved = (dns.resolver.time, dns.asyncresolver.time)
+    by_where = {}
+    tr = Transports(env, by_where)
+    saved = (dns.resolver.time, dns.asyncresolver.time, dns.query.udp, dns.query.tcp, dns.query.https,
+             dns.asyncquery.udp, dns.asyncquery.tcp, dns.asyncquery.https)
     dns.resolver.time = fake_time
     dns.asyncresolver.time = fake_time
+    dns.query.udp, dns.query.tcp, dns.query.https = tr.udp, tr.tcp, tr.https
+    dns.asyncquery.udp, dns.asyncquery.tcp, dns.asyncquery.https = tr.audp, tr.atcp, tr.ahttps
     try:
         if flavour == "sync":
             res = dns.resolver.Resolver(configure=False)
         else:
             res = dns.asyncresolver.Resolver(configure=False)
-        nss = [ScriptedNS(i, m, env) for i, m in servers]
-        # the same identifier listed twice is the same object listed twice
         seen = {}
         objs = []
-        for ns in nss:
-            objs.append(seen.setdefault(ns.ident, ns))
+        by_str = {}
+        by_ans = {}
+        for ident, kind in servers:
+            if ident in seen:  # the same identifier listed twice is the same object listed twice
+                objs.append(seen[ident])
+                continue
+            if kind == 0:
+                o = do53_address(ident)
+                by_where[o] = ident
+                by_str[f"Do53:{o}@53"] = ident
+                by_ans[o] = ident
+            elif kind == 1:
+                o = doh_url(ident)
+                by_where[o] = ident
+                by_str[o] = ident
+                by_ans[o] = ident
+            else:
+                o = ScriptedNS(ident, kind == 3, env)
+                by_str[str(o)] = ident
+                by_ans[o.answer_nameserver()] = ident
+            seen[ident] = o
+            objs.append(o)
         res.nameservers = objs
-        by_str = {str(ns): ns.ident for ns in objs}
-        by_ans = {ns.answer_nameserver(): ns.ident for ns in objs}
         res.timeout = F(timeout_ms, 1000)
         res.lifetime = F(lifetime_ms, 1000)
         res.retry_servfail = bool(retry_servfail)
@@ -334,7 +420,6 @@ def run_case(case, flavour):
         res.domain = mkname(domain)
         res.ndots = ndots
         res.rotate = False
-        backend = Backend(clock)
 
         class BackendSleep(Backend):
             async def sleep(self, interval):
@@ -380,9 +465,10 @@ def run_case(case, flavour):
                 probes.append(pr)
             else:
                 probes.append([])
-        return [out, probes]
+        return [out, probes, sorted(tr.anomalies)]
     finally:
-        dns.resolver.time, dns.asyncresolver.time = saved
+        (dns.resolver.time, dns.asyncresolver.time, dns.query.udp, dns.query.tcp, dns.query.https,
+         dns.asyncquery.udp, dns.asyncquery.tcp, dns.asyncquery.https) = saved
 
 
 # ---- interning of names (keeps the Coq case files small) --------------------------------------
@@ -454,7 +540,7 @@ def dec_name(table, o):
 
 def compress_result(table, res):
     """replace the names of one flavour's observation by table references"""
-    out, probes = res
+    out, probes, anomalies = res
     out2 = []
     for trace, fin, clk in out:
         trace2 = [[e[0], e[1], e[2], e[3], enc_name(table, e[4]), e[5]] for e in trace]
@@ -469,11 +555,11 @@ def compress_result(table, res):
         else:
             fin2 = fin
         out2.append([trace2, fin2, clk])
-    return [out2, probes]
+    return [out2, probes, anomalies]
 
 
 def expand_result(table, res):
-    out, probes = res
+    out, probes, anomalies = res
     out2 = []
     for trace, fin, clk in out:
         trace2 = [[e[0], e[1], e[2], e[3], dec_name(table, e[4]), e[5]] for e in trace]
@@ -488,7 +574,7 @@ def expand_result(table, res):
         else:
             fin2 = fin
         out2.append([trace2, fin2, clk])
-    return [out2, probes]
+    return [out2, probes, anomalies]
 
 
 def impl(ccase):
@@ -639,9 +725,11 @@ def py_candidates(rcfg, qname, search):
 
 def gen_rcfg(rng):
     n = rng.choice([1, 2, 2, 3, 3, 4])
-    servers = [[i, 1 if rng.random() < 0.1 else 0] for i in range(n)]
+    servers = [[i, rng.choice([0, 0, 0, 0, 2, 2, 1, 3])] for i in range(n)]
     if rng.random() < 0.05 and n >= 2:
-        servers.append(list(rng.choice(servers)))
+        dup = [x for x in servers if x[1] >= 2]
+        if dup:
+            servers.append(list(rng.choice(dup)))
     timeout = rng.choice([2000, 2000, 500, 100, 1000, 3000])
     lifetime = rng.choice([5000, 5000, 300, 1000, 2500, 10000, 0, 150])
     search = rng.sample(SUFFIXES, rng.choice([0, 0, 1, 2, 3]))
@@ -918,7 +1006,10 @@ def check_flavour(fail0, case, res, flavour):
     servers, timeout_ms, lifetime_cfg, rsf, cache_kind, usbd, slist, domain, ndots = rcfg
     ids = [s[0] for s in servers]
     dup_servers = len(set(ids)) != len(ids)
-    outs, probes = res
+    outs, probes, anomalies = res
+    ANOM = {1: 'UDP query issued without raise_on_truncation', 2: 'UDP query issued without ignore_errors', 3: 'UDP query issued without ignore_unexpected', 4: 'query sent to the wrong port', 5: 'DoH query not POSTed'}
+    for an in anomalies:
+        fail0('nameserver transport misuse: ' + ANOM.get(an, str(an)), sig='transport-%s' % an, flavour=flavour)
     clock = 0
     # cache as the property describes it: key -> (script idx, expiry, kind)
     known = {}
